@@ -6,7 +6,9 @@
 (***************************************************************************)
 EXTENDS S3, S3Range, Json
 
-CONSTANTS N, CfgName
+CONSTANTS N, CfgName,
+          LargeSizes   \* {} : sizes 0..N with every bound 0..N+2;  otherwise: these object sizes (several MiB) with
+                       \* bounds at and around multiples of 1 MiB and around the end of the object
 VARIABLES size
 vars == <<size>>
 
@@ -16,7 +18,11 @@ B == "bkt1"
 K == <<107>>
 
 \* bounds with their decimal rendering; "big" values are all >= 2^31
-Small == {[b |-> Fin(i), s |-> ToString(i)] : i \in 0..(N + 2)}
+MiB == 1048576
+SmallVals == IF LargeSizes = {} THEN 0..(N + 2)
+             ELSE {v \in {0, 1, 7, MiB - 1, MiB, MiB + 1, MiB + 6, 2 * MiB - 1, 2 * MiB,
+                          size - MiB - 1, size - MiB, size - MiB + 7, size - 1, size, size + 1} : v >= 0}
+Small == {[b |-> Fin(i), s |-> ToString(i)] : i \in SmallVals}
 Big   == {[b |-> Inf, s |-> x] : x \in {"2147483647", "2147483648", "4294967296", "9223372036854775806", "9223372036854775807"}}
 Bounds == Small \cup Big
 \* strings that are not a bound at all
@@ -65,7 +71,7 @@ Tour(n) ==
          \* the object is still intact and fully readable afterwards
          \o <<[op |-> [op |-> "GetObject", b |-> B, k |-> K], r |-> [st |-> 200, code |-> "", body |-> BodyOf(n), etag |-> BodyOf(n)]]>>]
 
-Init == size \in 0..N
+Init == size \in (IF LargeSizes = {} THEN 0..N ELSE LargeSizes)
 Next == UNCHANGED size
 Spec == Init /\ [][Next]_vars
 EmitInv == PrintT(ToJson(Tour(size)))
